@@ -8,7 +8,7 @@
 set -u
 PATCH=$1; shift
 TIER=${TIER:-quick}
-S=/tmp/mut-eval
+S=${MUT_EVAL_DIR:-/tmp/mut-eval}
 mkdir -p $S
 if [ ! -d $S/repo ]; then git -C /repo worktree add --detach $S/repo HEAD >/dev/null 2>&1 || exit 2; fi
 git -C $S/repo checkout -q --detach "$(git -C /repo rev-parse HEAD)" 2>/dev/null
